@@ -580,3 +580,62 @@ package graph
 //@     invariant forall a in 1..i+1: forall c in 0..a: (6 * ((tri(i) + j) / 6) <= tri(a) + c && tri(a) + c < tri(i) + j) ==> (b / pow2(5 - (tri(a) + c) % 6)) % 2 == (absAdj(g, a, c) ? 1 : 0)
 //@     use triStep(i-1)
 //@     decreases i - j
+
+// ---- Sparse6Encode (C07), safety level plus header: ':' + N(n), every byte in 63..126, no panic,
+// termination, for every graph seen through the interface view (the pair stream itself is
+// covered by the bounded stand-in).
+//@ extern Graph.M(g Graph) (result int)
+//@   ensures 0 <= result && result <= 16777216 * 8388608
+//@ extern Graph.Degrees(g Graph) (result []int)
+//@   ensures fresh(result) && len(result) == absN(g)
+//@ pred s6scal(g Graph, n int, k int, cbp int) = n == absN(g) && 2 <= n && n <= 4096 && 1 <= k && k <= 12 && 0 <= cbp && cbp < 6
+//@ pred s6byte(b byte, cbp int) = 0 <= b && b < 64 && b % pow2(6 - cbp) == 0
+//@ pred s6str(s []byte, n int) = fresh(s) && len(s) >= 2 && s[0] == 58 && (forall t in 1..len(s): 63 <= s[t] && s[t] <= 126) && hdrN(s, 1) == n
+//@ func Sparse6Encode
+//@   requires absN(g) <= 4096
+//@   ensures len(result) >= 2 && result[0] == 58 && hdrN(result, 1) == absN(g)
+//@   ensures forall t in 1..len(result): 63 <= result[t] && result[t] <= 126
+//@   opt lemmas=absSimple
+//@   loop 1
+//@     invariant 1 <= i && i <= n && 0 <= v && v <= i && s6scal(g, n, k, currentBitPosition)
+//@     invariant s6byte(b, currentBitPosition)
+//@     invariant s6str(s, n)
+//@     decreases n - i
+//@   loop 2
+//@     invariant -1 <= rangeindex && (rangeindex < len(neighbours) || (len(neighbours) == 0 && rangeindex == -1)) && 1 <= i && i < n && 0 <= v && v <= i && s6scal(g, n, k, currentBitPosition)
+//@     invariant s6byte(b, currentBitPosition)
+//@     invariant s6str(s, n)
+//@     invariant forall t in 0..len(neighbours): 0 <= neighbours[t] && neighbours[t] < n
+//@     decreases len(neighbours) - rangeindex
+//@   loop 3
+//@     invariant 0 <= j && j <= k && -1 <= rangeindex && rangeindex < len(neighbours) && 1 <= i && i < n && 0 <= v && v <= i && 0 <= u && u < n && s6scal(g, n, k, currentBitPosition)
+//@     invariant s6byte(b, currentBitPosition)
+//@     invariant s6str(s, n)
+//@     invariant forall t in 0..len(neighbours): 0 <= neighbours[t] && neighbours[t] < n
+//@     split currentBitPosition == 0 | currentBitPosition == 1 | currentBitPosition == 2 | currentBitPosition == 3 | currentBitPosition == 4 | currentBitPosition == 5
+//@     decreases k - j
+//@   loop 4
+//@     invariant 0 <= j && j <= k && -1 <= rangeindex && rangeindex < len(neighbours) && 1 <= i && i < n && 0 <= v && v <= i && 0 <= u && u < n && s6scal(g, n, k, currentBitPosition)
+//@     invariant s6byte(b, currentBitPosition)
+//@     invariant s6str(s, n)
+//@     invariant forall t in 0..len(neighbours): 0 <= neighbours[t] && neighbours[t] < n
+//@     split currentBitPosition == 0 | currentBitPosition == 1 | currentBitPosition == 2 | currentBitPosition == 3 | currentBitPosition == 4 | currentBitPosition == 5
+//@     decreases k - j
+//@   loop 5
+//@     invariant 0 <= j && j <= k && -1 <= rangeindex && rangeindex < len(neighbours) && 1 <= i && i < n && 0 <= v && v <= i && 0 <= u && u < n && s6scal(g, n, k, currentBitPosition)
+//@     invariant s6byte(b, currentBitPosition)
+//@     invariant s6str(s, n)
+//@     invariant forall t in 0..len(neighbours): 0 <= neighbours[t] && neighbours[t] < n
+//@     split currentBitPosition == 0 | currentBitPosition == 1 | currentBitPosition == 2 | currentBitPosition == 3 | currentBitPosition == 4 | currentBitPosition == 5
+//@     decreases k - j
+//@   loop 6
+//@     invariant 0 <= j && j <= k && -1 <= rangeindex && rangeindex < len(neighbours) && 1 <= i && i < n && 0 <= v && v <= i && 0 <= u && u < n && s6scal(g, n, k, currentBitPosition)
+//@     invariant s6byte(b, currentBitPosition)
+//@     invariant s6str(s, n)
+//@     invariant forall t in 0..len(neighbours): 0 <= neighbours[t] && neighbours[t] < n
+//@     split currentBitPosition == 0 | currentBitPosition == 1 | currentBitPosition == 2 | currentBitPosition == 3 | currentBitPosition == 4 | currentBitPosition == 5
+//@     decreases k - j
+//@   loop 7
+//@     invariant currentBitPosition <= j && j <= 6 && 0 <= currentBitPosition && currentBitPosition < 6 && 0 <= b && b < 64 && b % pow2(6 - j) == 0 && n == absN(g) && fresh(s) && len(s) >= 2 && s[0] == 58 && (forall t in 1..len(s): 63 <= s[t] && s[t] <= 126) && hdrN(s, 1) == n
+//@     split j == 0 | j == 1 | j == 2 | j == 3 | j == 4 | j == 5 | j == 6
+//@     decreases 6 - j
